@@ -1726,3 +1726,40 @@ package ice
 //@   at call:(*Segment).getDocStoredOffsets#0 ghostset so3 = result4
 //@   ensures[C06,C10] @record_cut_as_meta_then_data err == nil ==> arr(meta) == arr(uncompressed) && off(meta) == off(uncompressed) + so0 + so1 && len(meta) == so2
 //@   ensures[C06,C10] @record_cut_as_meta_then_data err == nil ==> arr(data) == arr(uncompressed) && off(data) == off(uncompressed) + so0 + so1 + so2 && len(data) == so3
+//@
+//@ // ---- C05/C10: the location stream. A stepped-over posting's locations are skipped by exactly
+//@ // the byte count the stream announces for them; a location is four uvarints in the order
+//@ // field id, position, start, end (the order both writers emit: see the ia0..ia3 pins) ----
+//@ ghostvar skn int
+//@ ghostvar lnb int
+//@ ghostvar rl0 int
+//@ ghostvar rl1 int
+//@ ghostvar rl2 int
+//@ ghostvar rl3 int
+//@ func (*chunkedIntDecoder).SkipBytes
+//@   ghostset skn = old(count)
+//@   ensures[C05,C10] skn == old(count)
+//@ func (*PostingsIterator).currChunkNext
+//@   at call:(*chunkedIntDecoder).readUvarint#0 ghostset lnb = result0
+//@   at call:(*chunkedIntDecoder).SkipBytes#0 lemma[C05,C10] skn == lnb
+//@ func (*PostingsIterator).readLocation
+//@   at call:(*chunkedIntDecoder).readUvarint#0 ghostset rl0 = result0
+//@   at call:(*chunkedIntDecoder).readUvarint#1 ghostset rl1 = result0
+//@   at call:(*chunkedIntDecoder).readUvarint#2 ghostset rl2 = result0
+//@   at call:(*chunkedIntDecoder).readUvarint#3 ghostset rl3 = result0
+//@   ensures[C05,C10] @location_is_field_pos_start_end result0 == nil ==> l.pos == rl1 && l.start == rl2 && l.end == rl3 && l.field == i.postings.sb.fieldsInv[rl0]
+//@
+//@ // ---- C06/C10: the record header. At the document's offset in its block: uvarint meta length,
+//@ // uvarint data length, then the two sections; n is the encoded size of the two uvarints ----
+//@ ghostvar gh0 int
+//@ ghostvar gh1 int
+//@ ghostvar gn0 int
+//@ ghostvar gn1 int
+//@ func (*Segment).getDocStoredOffsets
+//@   at call:encoding/binary.Uvarint#0 ghostset gh0 = result0
+//@   at call:encoding/binary.Uvarint#0 ghostset gn0 = result1
+//@   at call:encoding/binary.Uvarint#1 ghostset gh1 = result0
+//@   at call:encoding/binary.Uvarint#1 ghostset gn1 = result1
+//@   at call:encoding/binary.Uvarint#0 lemma[C06,C10] arr(metaLenData) == arr(uncompressed) && off(metaLenData) == off(uncompressed) + storedOffset
+//@   at call:encoding/binary.Uvarint#1 lemma[C06,C10] arr(dataLenData) == arr(uncompressed) && off(dataLenData) == off(uncompressed) + storedOffset + gn0
+//@   ensures[C06,C10] @header_is_meta_length_then_data_length err == nil ==> metaLen == gh0 && dataLen == gh1 && n == gn0 + gn1
